@@ -207,6 +207,49 @@ def variants(spec: dict) -> list:
     return out
 
 
+def _scramble(x):
+    "edit every mutable container of a serialised form in place (what a caller deriving a variant from it may do)"
+    if isinstance(x, dict):
+        for k in list(x):
+            v = x[k]
+            if isinstance(v, (dict, list)):
+                _scramble(v)
+            elif isinstance(v, str):
+                x[k] = v + "~"
+            elif isinstance(v, bool):
+                x[k] = not v
+            elif isinstance(v, (int, float)):
+                x[k] = v + 1
+        x["__edited__"] = 1
+    elif isinstance(x, list):
+        for v in x:
+            _scramble(v)
+        x.append("~")
+
+
+def _handed_out_form_phase(i, cs, cfg, text, h, fn):
+    """A serialised form belongs to whoever asked for it. The statement does not say whether the form may share containers with
+    the configuration *it was taken from* (on the unchanged tree it does: `maze_ctor_kwargs` is handed out by reference), so
+    that object is not judged. But editing the form (to derive a variant, to strip fields before logging) must not reach any
+    *other* configuration: not the live one built earlier from its own copy of the same fields, nor one built afterwards -
+    both must still serialise, hash and name themselves as before, and round-trip."""
+    import copy
+
+    donor = make_cfg(copy.deepcopy(cs))
+    ser = donor.serialize()
+    _scramble(ser)
+    del donor
+    text2 = json.dumps(cfg.serialize())
+    if text2 != text:
+        raise core.Violation("C18.roundtrip-equal", f"config #{i}: after a caller edited the serialised form of ANOTHER configuration object with the same fields, this one serialises differently (serialised forms share state through the library)")
+    if cfg.stable_hash_cfg() != h or cfg.to_fname() != fn:
+        raise core.Violation("C18.hash-depends-only-on-content", f"config #{i}: hash / file name changed after a caller edited the serialised form of another configuration object")
+    fresh = make_cfg(copy.deepcopy(cs))
+    if json.dumps(fresh.serialize()) != text or fresh.stable_hash_cfg() != h:
+        raise core.Violation("C18.hash-depends-only-on-content", f"config #{i}: a configuration built from the same fields after the edit serialises / hashes differently")
+    roundtrip_check(fresh, True, f"config #{i} (built after a caller edited another configuration's serialised form)")
+
+
 MUT_OPS = ["kwargs-setitem", "kwargs-delitem", "endpoint-setitem", "filters-append", "filters-pop", "assign-n_mazes", "assign-name", "assign-seed", "assign-grid_n"]
 
 
@@ -318,6 +361,8 @@ def st_history(spec):
                 if json.dumps(loaded.serialize()) != text:
                     raise core.Violation("C18.roundtrip-equal", f"config #{i}: serialised text of the loaded copy differs from the original's")
             n_checked += 1
+            _handed_out_form_phase(i, cs, cfg, text, h, fn)
+            events.append(["handed-out-form-edited", i])
             if spec.get("mutate", True) and i % 2 == 1:
                 _mutation_phase(spec, i, cs, cfg, h, events)
             if spec.get("variants", True) and i % 3 == 0:
